@@ -2,7 +2,7 @@
 // buffer class, position checks with size vectors of any rank, the per-column getters of a data-frame dimension.  Run on the
 // sanitizer build; judged for survival (no model replay).
 //
-//   ab_nd <op> <[a]> <[b]>            op in + - * / += dot lt le gt ge eq idx(=a[b0]) nelms       => ok <result>
+//   ab_nd <op> <[a]> <[b]>            op in + - * / += dot lt le gt ge eq idx(=a[b0]) nelms asg    => ok <result>
 //   ab_ndarr <dtype> <[shape]> get|set <[index]> | geti|seti <n>                                  => ok <value as double>
 //   ab_posin <[shape]> <[pos]> <[count]|~>      positionAndExtentInData / positionInData          => ok 0|1
 //   ab_fdim <ncols> <nrows> <col|~> <default col|~>   label / unit / columnDataType / ticks of a data-frame dimension      => ok …
@@ -76,6 +76,8 @@ DRV_OP(ab_nd) {
         if (op == "eq") return std::string(x == y ? "1" : "0");
         if (op == "idx") return std::to_string(x[y.size() ? (size_t) y[0] : 0]);
         if (op == "nelms") return std::to_string(x.nelms());
+        // hand-written copy / assignment / swap members: an assigned size vector is the one that was assigned
+        if (op == "asg") { nix::NDSize z = y; nix::NDSize w(z); z = x; w.swap(z); nix::NDSize v; v = w; return ndTok(v) + " " + ndTok(z); }
         throw ProtoError("ab_nd op " + op);
     });
 }
